@@ -21,6 +21,11 @@ def run(tier):
     args = [[s * 7919 + i, nseq, maxops, 4096 if i == 0 else -1] for i in range(nproc)]
     fw.run_harness_parallel(res, exe, args, timeout=1800, key_prefix="C10")
     res.evaluations = res.counters.get("sequences", 0) + res.counters.get("sizes_swept", 0)
+    # second opinion (uninitialised reads are invisible to ASan): a slice of fresh sequences on the plain build under memcheck
+    exe_p = build.build_harness("mem_blocks", "plain", ["mem_blocks.c"])
+    margs = [[s * 104729 + i, 150 if tier == "quick" else 1500, 200, -1] for i in range(2 if tier == "quick" else 16)]
+    fw.run_harness_parallel(res, exe_p, margs, timeout=3600, key_prefix="C10", wrapper=fw.MEMCHECK)
+    res.count("memcheck_processes", len(margs))
     fw.finish(res, RULE, ASSUME,
               extra_cov={"exhaustive_subspace": "sizes 0..4096 x {dtor,no dtor}: alignment, size, full write, ref/unref/unref"})
 
